@@ -27,7 +27,8 @@ PROBES = ["immediate_clear", "timed_clear", "clear_by_event", "clear_by_nested_c
           "mode_start_on_queue", "mode_wait_queue_held", "mode_start_noop_active", "mode_starting_has_handlers",
           "mode_starting_waiter", "relay_player_wait", "mr_relay_wait", "mr_relay_cleared_by_stop", "qep_post",
           "relay_chain3", "relay_empty_kwargs", "bool_false_midway", "bool_no_false",
-          "handler_removed_in_flight", "all_handlers_removed_after_post", "late_after_stall"]
+          "rewait_same_queue", "forwarded_queue_nested", "shared_queue_second_wait", "relay_reg_collides_posted",
+          "relay_ret_collides_reg", "handler_removed_in_flight", "all_handlers_removed_after_post", "late_after_stall"]
 REAL = ["mpf.core.events.EventManager (post_queue/_async, post_relay/_async, post_boolean, add_async_handler, "
         "QueuedEvent)", "mpf.core.mode.Mode start/stop incl. use_wait_queue", "mpf.core.mode_controller",
         "mpf.devices.logic_blocks.Counter (mode device registering on mode_<n>_starting)",
@@ -88,17 +89,22 @@ def _kw(ch, allow_empty=False):
     return kw
 
 
-def _gen_acts(ch, ev, feat, only_clear=False):
+def _gen_acts(ch, ev, feat, only_clear=False, fwd=False):
     acts = []
     if ch.flag("act", 0.35):
         opts = [("postc", 2), ("clr", 2)]
         hi = [] if only_clear else _higher(ev, feat)
         if hi and feat["nested"]:
             opts.insert(0, ("post", 5))
+            if fwd and feat["fwd"] and any(e in QEV for e in hi):
+                # the handler re-posts what it got, *including its unlocked queue*, on a nested queue event
+                opts.insert(1, ("postfwd", 6))
         k = ch.weighted("act_kind", opts)
         if k == "post":
             e = ch.pick("act_ev", hi)
             acts.append(["post", _how_for(ch, e), e, _kw(ch)])
+        elif k == "postfwd":
+            acts.append(["postfwd", ch.pick("fwd_ev", [e for e in hi if e in QEV]), _kw(ch)])
         elif k == "postc":
             acts.append(["postc", ch.pick("act_c", CEV)])
         else:
@@ -107,7 +113,7 @@ def _gen_acts(ch, ev, feat, only_clear=False):
 
 
 def _gen_queue_handler(ch, hid, ev, feat, only_clear=False):
-    h = {"hid": hid, "ev": ev, "prio": ch.pick("prio", PRIOS), "acts": _gen_acts(ch, ev, feat, only_clear)}
+    h = {"hid": hid, "ev": ev, "prio": ch.pick("prio", PRIOS), "acts": []}
     kinds = [("wait", 5), ("sync", 3)]
     if feat["coro"]:
         kinds.append(("coro", 2))
@@ -128,6 +134,9 @@ def _gen_queue_handler(ch, hid, ev, feat, only_clear=False):
         else:
             e = ch.pick("nest_ev", hi)
             h["clear"] = ["nested", _how_for(ch, e), e, _kw(ch)]
+        if feat["rewait"] and ch.flag("rewait", 0.35):
+            # (1a) wait(); clear(); and then the wait proper: one QueuedEvent is waited on twice
+            h["rewait"] = True
     elif h["kind"] == "coro":
         segs = []
         for _ in range(1 + ch.choice("nseg", 2)):
@@ -137,6 +146,8 @@ def _gen_queue_handler(ch, hid, ev, feat, only_clear=False):
                 seg["await_q"] = [ch.pick("nest_ev", hi), _kw(ch)]
             segs.append(seg)
         h["segs"] = segs
+    unlocked_after = h["kind"] == "sync" or (h["kind"] == "wait" and h["clear"] == ["now"])
+    h["acts"] = _gen_acts(ch, ev, feat, only_clear, fwd=unlocked_after)
     return h
 
 
@@ -145,7 +156,8 @@ def plan(ch, tier):
     knobs["perm_clears"] = ch.flag("knob.perm_clears", 0.5)
     feat = {"modes": ch.flag("f.modes", 0.7), "msh": ch.flag("f.msh", 0.5), "nested": ch.flag("f.nested", 0.6),
             "coro": ch.flag("f.coro", 0.6), "relay": ch.flag("f.relay", 0.5), "bool": ch.flag("f.bool", 0.5),
-            "rm": ch.flag("f.rm", 0.3), "qep": ch.flag("f.qep", 0.25), "mr": ch.flag("f.mr", 0.4)}
+            "rm": ch.flag("f.rm", 0.3), "qep": ch.flag("f.qep", 0.25), "mr": ch.flag("f.mr", 0.4),
+            "fwd": ch.flag("f.fwd", 0.6), "rewait": ch.flag("f.rewait", 0.6)}
     handlers = []
     hid = [0]
 
@@ -173,8 +185,14 @@ def plan(ch, tier):
                                 for _ in range(1 + ch.choice("rn", 2))}
                 else:
                     h["ret"] = {"none": None, "true": True, "zero": 0}[r]
-                if ch.flag("rreg", 0.2):
-                    h["reg"] = {"reg": ch.choice("rregv", 3)}
+                if ch.flag("rreg", 0.45):
+                    # registered kwargs; names collide with posted arguments ('a', 'p') in a good share of cases
+                    h["reg"] = {ch.pick("rregk", ["a", "p", "reg", "a", "b"]): ch.choice("rregv", 3) + 20}
+                    if isinstance(h["ret"], dict) and ch.flag("rreg_collide", 0.7):
+                        # ... and the handler returns a new value for its own registered key (the update is for
+                        # all later handlers and the result; the registered value only overrides what it sees)
+                        for k in h["reg"]:
+                            h["ret"][k] = ch.choice("rv", 5) + 30
                 handlers.append(h)
     if feat["bool"]:
         for ev in BEV:
@@ -258,6 +276,8 @@ def shrink(plan):
             if len(h["segs"]) > 1:
                 simpler.append(dict(h, segs=h["segs"][:1]))
         if h["kind"] == "wait":
+            if h.get("rewait"):
+                simpler.append({k: v for k, v in h.items() if k != "rewait"})
             if h["clear"] != ["now"]:
                 simpler.append(dict(h, clear=["now"]))
             if h["clear"][0] == "timed" and h["clear"][1] != 0.0:
